@@ -59,11 +59,14 @@ def _printable(s: str) -> bool:
 def escape_round_trip(s: str) -> bool:
     """
     pre: len(s) <= MAXLEN
-    pre: _printable(s)
     post: _ == True
     """
     lit = DQ + _escape_string_literal(s) + DQ
-    return c_unescape(lit) == s
+    back = c_unescape(lit)
+    if back is None:
+        # not a well-formed literal: the C++ compiler refuses it (loud) - only a raw line break may cause that
+        return (chr(10) in s) or (chr(13) in s)
+    return back == s
 
 
 def escape_never_shrinks(s: str) -> bool:
